@@ -588,28 +588,7 @@ def r2_3(ctx: Ctx, rule="R2.3"):
                   and isinstance(s_.value, ast.Call) and call_name(s_.value) == "len"}
 
     def eval_size_test(t, n_):
-        """Truth value of a test on the size for a molecule of n_ atoms (None: not a size test)."""
-        if isinstance(t, ast.UnaryOp) and isinstance(t.op, ast.Not):
-            v_ = eval_size_test(t.operand, n_)
-            return None if v_ is None else (not v_)
-        if isinstance(t, ast.BoolOp):
-            vs = [eval_size_test(v_, n_) for v_ in t.values]
-            if None in vs:
-                return None
-            return all(vs) if isinstance(t.op, ast.And) else any(vs)
-        if isinstance(t, ast.Compare) and len(t.ops) == 1 and (norm(t.left) in size_names or norm(t.left).startswith("len(")):
-            op, c = t.ops[0], t.comparators[0]
-            if isinstance(op, (ast.In, ast.NotIn)) and isinstance(c, (ast.List, ast.Tuple, ast.Set)):
-                vals = [const_int(x) for x in c.elts]
-                if None in vals:
-                    return None
-                return (n_ in vals) == isinstance(op, ast.In)
-            k = const_int(c)
-            if k is None:
-                return None
-            return {ast.Lt: n_ < k, ast.LtE: n_ <= k, ast.Gt: n_ > k, ast.GtE: n_ >= k, ast.Eq: n_ == k,
-                    ast.NotEq: n_ != k}.get(type(op))
-        return None
+        return globals()['eval_size_test'](t, n_, size_names)
     for n in walk_no_nested(g.node):
         if isinstance(n, ast.If) and eval_size_test(n.test, 1) is not None:
             in_body = any(call_name(c) == em.fb.name for s_ in n.body for c in calls_in(s_))
@@ -641,16 +620,21 @@ def r2_3(ctx: Ctx, rule="R2.3"):
     nob = 0
     for n in sizes:
         env: Dict[str, List[str]] = {}
+        ints: Dict[str, int] = {}
         okseq = True
         for s in branch.body:
             if isinstance(s, ast.Assign) and isinstance(s.targets[0], ast.Name):
                 # fold range(3 - n_atoms) with the branch's size
                 val = s.value
-                seq = _seq_eval_n(val, env, n, size_var)
+                seq = _seq_eval_n(val, env, n, size_var, ints)
                 if seq is not None:
                     env[s.targets[0].id] = seq
+                else:
+                    iv = _int_eval_n(val, n, size_var, ints)
+                    if iv is not None:
+                        ints[s.targets[0].id] = iv
         arg = fbc[0].args[0]
-        seq = _seq_eval_n(arg, env, n, size_var)
+        seq = _seq_eval_n(arg, env, n, size_var, ints)
         if seq is None or len(seq) != 3:
             ctx.ob(rule, g, "points handed to the frame builder for a %d-atom reference" % n, True,
                    "construction of the three points not in the modelled fragment (%s); not decided" % norm(arg),
@@ -680,12 +664,42 @@ def r2_3(ctx: Ctx, rule="R2.3"):
     ctx.floor(rule, nob, 2, "small-reference sizes evaluated")
 
 
-def _seq_eval_n(e, env, n, size_var):
-    """_seq_eval with the branch's size variable folded to n."""
+def _fold_size(e, n, size_var, ints=None):
+    ints = ints or {}
+
     class Sub(ast.NodeTransformer):
         def visit_Name(self, node):
             if node.id == size_var:
                 return ast.copy_location(ast.Constant(n), node)
+            if node.id in ints:
+                return ast.copy_location(ast.Constant(ints[node.id]), node)
+            return node
+
+        def visit_Call(self, node):
+            self.generic_visit(node)
+            if call_name(node) == "len" and node.args and not isinstance(node.args[0], ast.Constant):
+                return ast.copy_location(ast.Constant(n), node)
+            return node
+    import copy
+    e2 = Sub().visit(copy.deepcopy(e))
+    ast.fix_missing_locations(e2)
+    return e2
+
+
+def _int_eval_n(e, n, size_var, ints=None):
+    return const_int(_fold_size(e, n, size_var, ints))
+
+
+def _seq_eval_n(e, env, n, size_var, ints=None):
+    """_seq_eval with the branch's size variable (and integer locals computed from it) folded to n."""
+    ints = ints or {}
+
+    class Sub(ast.NodeTransformer):
+        def visit_Name(self, node):
+            if node.id == size_var:
+                return ast.copy_location(ast.Constant(n), node)
+            if node.id in ints:
+                return ast.copy_location(ast.Constant(ints[node.id]), node)
             return node
 
         def visit_Call(self, node):
@@ -697,6 +711,36 @@ def _seq_eval_n(e, env, n, size_var):
     e2 = Sub().visit(copy.deepcopy(e))
     ast.fix_missing_locations(e2)
     return _seq_eval(e2, env, n, None)
+
+
+def eval_size_test(t, n_, size_names):
+    """Truth value of a test on the size for a molecule of n_ atoms (None: not a size test)."""
+    if isinstance(t, ast.UnaryOp) and isinstance(t.op, ast.Not):
+        v_ = eval_size_test(t.operand, n_, size_names)
+        return None if v_ is None else (not v_)
+    if isinstance(t, ast.BoolOp):
+        vs = [eval_size_test(v_, n_, size_names) for v_ in t.values]
+        if None in vs:
+            return None
+        return all(vs) if isinstance(t.op, ast.And) else any(vs)
+    if isinstance(t, ast.Compare) and len(t.ops) == 1 and (norm(t.left) in size_names or norm(t.left).startswith("len(")):
+        op, c = t.ops[0], t.comparators[0]
+        if isinstance(op, (ast.In, ast.NotIn)) and isinstance(c, (ast.List, ast.Tuple, ast.Set)):
+            vals = [const_int(x) for x in c.elts]
+            if None in vals:
+                return None
+            return (n_ in vals) == isinstance(op, ast.In)
+        k = const_int(c)
+        if k is None:
+            return None
+        return {ast.Lt: n_ < k, ast.LtE: n_ <= k, ast.Gt: n_ > k, ast.GtE: n_ >= k, ast.Eq: n_ == k,
+                ast.NotEq: n_ != k}.get(type(op))
+    return None
+
+
+def _size_names(fn: ast.AST) -> Set[str]:
+    return {norm(s_.targets[0]) for s_ in walk_no_nested(fn) if isinstance(s_, ast.Assign)
+            and isinstance(s_.value, ast.Call) and call_name(s_.value) == "len"}
 
 
 # ---------------------------------------------------------------------------
@@ -738,7 +782,11 @@ def r3_1(ctx: Ctx, rule="R3.1"):
                         allowed, why = True, "position of a frame neighbour (closest_atoms)"
                 elif f is small:
                     p = [x for x in small.params if x != "self"][0]
-                    in_small = any(isinstance(a, ast.If) and ("in [" in norm(a.test) or "<" in norm(a.test)) for a in ancestors(n, pm))
+                    # the read is on paths taken by references of one or two atoms only (whatever the spelling of the size test)
+                    sn_ = _size_names(small.node)
+                    gl_ = guards_of(n, pm)
+                    sizes_ = [k for k in range(1, 7) if all(eval_size_test(t_, k, sn_) == pol_ for t_, pol_ in gl_ if eval_size_test(t_, k, sn_) is not None)]
+                    in_small = bool(gl_) and any(eval_size_test(t_, 1, sn_) is not None for t_, _ in gl_) and set(sizes_) <= {1, 2}
                     if recv == p and n.attr == "atoms_positions" and in_small:
                         allowed, why = True, "all (one or two) positions of a small reference"
                 ctx.ob(rule, f, "coordinate read `%s` in %s" % (norm(n), f.name), allowed,
